@@ -89,6 +89,7 @@ fn main() {
         ("script", "templates") => script::templates(rest, &mut out),
         ("addr", "strings") => addr::strings(rest, &mut out),
         ("addr", "valid") => addr::valid(rest, &mut out),
+        ("serde", "content") => serdes::content(rest, &mut out),
         ("serde", "replay") => serdes::replay(rest, &mut out),
         ("total", "record") => total::record(rest, &mut out),
         ("dynafed", "record") => dynafed::record(rest, &mut out),
